@@ -57,6 +57,7 @@ ENUM_SEEDS = [
     'GET /echo HTTP/1.15\r\nHost: a\r\n\r\n',
     'GET /reflect HTTP/1.1\r\nHost: a\r\nX-Custom: v\\u20ac\r\n\r\n',
     'GET /badhdr HTTP/1.1\r\nHost: a\r\n\r\n',
+    'GET / HTTP/0.12\r\nHost: a\r\n\r\n',
     'GET / HTTP/1.1\r\nHost: a\r\nCookie: a="\\u20ac"\r\n\r\n',
 ]
 
@@ -151,7 +152,7 @@ class C14(Prop):
             'oversized parts, Content-Length, chunk framing, backslash escapes, NUL, high bytes, TLS/SSL hellos, truncation, '
             'generic byte edits), delivered as 1-5 reads or byte-wise, disconnect after any read (also queued in the same loop '
             'pass), optionally after an answered keep-alive request, liveness probe connection optionally half-open during '
-            'the hostile traffic; exhaustive part: every truncation of 21 fixed requests (one read + disconnect) and every '
+            'the hostile traffic; exhaustive part: every truncation of 22 fixed requests (one read + disconnect) and every '
             'two-read split of them with the disconnect after the first part; '
             'non-trivial = the bytes differ from the well-formed seed and the connection did not get a 200 as its first '
             'answer (4xx/5xx/3xx, nothing, or plain close); distinct = distinct spec hash')
